@@ -223,6 +223,16 @@ def run(chk, tier, seed):
         chk.harness_error("the same case executed in two processes did not give identical observations")
         return
     results = pmap(run_case, cases, chunk=16, timeout=900, progress=f"C14 {tier} lattice")
+    # an exception on a request that is not a documented rejection is re-executed once in a process of its own before
+    # it is believed (DESIGN section 9); if it does not come back the second execution is the observation
+    again = [i for i, r in enumerate(results) if not (is_error(r) or is_timeout(r)) and r["status"] == "raised" and not r["expected_rejection"]]
+    nonrepro = []
+    for i, r in zip(again, pmap(run_case, [cases[i] for i in again], chunk=1, timeout=900)):
+        if not (is_error(r) or is_timeout(r)) and r["status"] != "raised":
+            nonrepro.append(f"{key(cases[i])}: {results[i]['msg'][:120]}")
+            results[i] = r
+    chk.extra["exceptions_not_reproduced_in_a_fresh_process"] = nonrepro
+    chk.excluded += len(nonrepro)
     worst = {}
     nid = 0
     horizon = 0
